@@ -73,6 +73,58 @@ fn ref_conjectured(q: u32, blowup: u32, grinding: u32, ext_deg: u32, bits: u32, 
     (field_security.min(query_security) - 1).min(cr)
 }
 
+/// The proven estimate, transcribed from the description the library documents (Theorem 8 of eprint 2022/1216 as
+/// summarised in the doc comments of air/src/proof/mod.rs): for every proximity parameter m in [3, m_max) the minimum
+/// of the FRI (commit and query phase), ALI and DEEP error terms minus one bit, maximised over m, capped by the
+/// collision resistance. Returns an interval [lo, hi]: every real-valued term is floored at x - 1e-6 and x + 1e-6,
+/// so that a last-digit difference between two correct floating-point evaluations cannot raise an alarm.
+fn ref_proven(q: u32, blowup: u32, grinding: u32, ext_deg: u32, bits: u32, log_len: u32, cr: u32) -> (u64, u64) {
+    let eps = 1e-6f64;
+    let fl = |x: f64| -> (u64, u64) {
+        let lo = (x - eps).floor();
+        let hi = (x + eps).floor();
+        (if lo < 0.0 { 0 } else { lo as u64 }, if hi < 0.0 { 0 } else { hi as u64 })
+    };
+    let n = (1u64 << log_len) as f64;
+    let field_bits = (bits * ext_deg) as f64;
+    let rho = 1.0 / blowup as f64;
+    let lde = n * blowup as f64;
+    let rho_plus = (n + 2.0) / lde;
+    let max_deg = blowup as f64 + 1.0;
+    let m_max = {
+        let v = (0.25 * n * (1.0 + (1.0 + 2.0 / n).sqrt())).ceil();
+        (v as u64).min(1000)
+    };
+    let (mut best_lo, mut best_hi) = (0u64, 0u64);
+    for m in 3..m_max {
+        let m = m as f64;
+        let alpha = (1.0 + 0.5 / m) * rho.sqrt();
+        let m_plus = (1.0 / (2.0 * (alpha / rho_plus.sqrt() - 1.0))).ceil();
+        let alpha_plus = (1.0 + 0.5 / m_plus) * rho_plus.sqrt();
+        let fri_commit = field_bits - ((0.5 * (m + 0.5).powf(7.0) / rho.powf(1.5)) * lde.powf(2.0)).log2();
+        let fri_query = grinding as f64 - (alpha_plus.powf(q as f64)).log2();
+        let l_plus = (2.0 * m_plus + 1.0) / (2.0 * rho_plus.sqrt());
+        let ali = -(l_plus.log2()) + field_bits;
+        let deep = -((l_plus * (max_deg * (n + 2.0 - 1.0) + (n - 1.0))).log2()) + field_bits;
+        let step = |fc: u64, fq: u64, a: u64, d: u64| -> u64 {
+            let fri = fc.min(fq);
+            if fri < 1 {
+                return 0;
+            }
+            let mn = (fri - 1).min(a).min(d);
+            if mn < 1 {
+                0
+            } else {
+                mn - 1
+            }
+        };
+        let (c, qy, a, d) = (fl(fri_commit), fl(fri_query), fl(ali), fl(deep));
+        best_lo = best_lo.max(step(c.0, qy.0, a.0, d.0));
+        best_hi = best_hi.max(step(c.1, qy.1, a.1, d.1));
+    }
+    (best_lo.min(cr as u64), best_hi.min(cr as u64))
+}
+
 fn ext_of(d: u32) -> FieldExtension {
     match d {
         1 => FieldExtension::None,
@@ -202,6 +254,11 @@ pub fn subs(run: &Arc<Run>) -> Vec<Arc<dyn Sub>> {
                                 },
                             };
                             n += 1;
+                            // the value itself, against the transcription of the documented formula
+                            let (lo, hi) = ref_proven(q, b, g, ext, bits, ll, 128);
+                            if (base as u64) < lo || (base as u64) > hi {
+                                out.violation("proven security differs from the documented formula", json!({"case": info(), "got": base, "want": [lo, hi]}));
+                            }
                             // successors: next query count in the lattice, next grinding value, next extension
                             if q < 255 {
                                 if let Some(v) = lv(&mk(q + 1, g, ext), 128) {
